@@ -40,6 +40,27 @@ package influx
 //@     invariant 0 <= i && i <= len(s) && (forall k int :: 0 <= k && k < i ==> 48 <= s[k] && s[k] <= 57)
 //@     decreases len(s) - i
 
+// Floats keep their exact value: the float of an accepted field is the correctly rounded value of its text, i.e. it
+// comes from a parser whose contract says so (strconv.ParseFloat); a best-effort parser (no such contract, returns 0
+// for what it cannot read and rounds twice for fraction-with-exponent spellings) cannot discharge this.
+//@ spec func exactFloat(s string) float64
+//@ func strconv.ParseFloat
+//@   mode any
+//@   extern T-strconv: the correctly rounded IEEE-754 double of a decimal text, or an error
+//@   ensures result1 == nil ==> result0 == exactFloat(s)
+//@   assigns nothing
+
+// A block of lines: the first rejected line rejects the block with its error - a later valid line must not wipe it.
+//@ func unmarshalRows
+//@   ghost failed bool = false
+//@   ghost lastFailed bool = false
+//@   call unmarshalRow
+//@     set failed = failed || ret3 != nil
+//@     set lastFailed = (ret3 != nil)
+//@   ensures [rejected_line_is_reported] failed ==> result3 != nil
+//@   loop 1
+//@     invariant lastFailed == (err != nil) && (lastFailed ==> failed)
+
 // Field values: integers keep every digit, booleans their truth value, non-finite floats and
 // the unsigned suffix are rejected.
 //@ func parseFieldNumValue
@@ -56,9 +77,11 @@ package influx
 //@   ensures result2 == nil && result1 == Field_Type_Float ==> !isNaN(result0) && !isInf(result0)
 //@   ghost vn bool = false
 //@   call IsValidNumber
-//@     requires arg0 == s
+//@     requires arg0 == s || (len(s) > 1 && s[len(s)-1] == 102 && arg0 == s[:len(s)-1])
 //@     set vn = ret0
-//@   ensures [float_is_valid_number] result2 == nil && result1 == Field_Type_Float && s[len(s)-1] != 102 ==> vn
+//@   ensures [float_is_valid_number] result2 == nil && result1 == Field_Type_Float ==> vn
+//@   ensures [float_is_exact] result2 == nil && result1 == Field_Type_Float && s[len(s)-1] != 102 ==> result0 == exactFloat(s)
+//@   ensures [suffixed_float_is_exact] result2 == nil && result1 == Field_Type_Float && len(s) > 1 && s[len(s)-1] == 102 ==> result0 == exactFloat(s[:len(s)-1])
 
 // Un-escaping agrees with the escaping rules of the splitter (nextUnescapedChar treats `\,`, `\ `, `\=`
 // and `\\` as escapes): a backslash is re-emitted only in front of a character that is NOT escapable.
